@@ -6,6 +6,7 @@
    The `std` flag occurs in no definition of the model.  Encoding and length functions take no
    configuration argument. *)
 From MC Require Import Bytes Monad Decoder Acc Accessors Types CfgFacts.
+From MC Require Import Encoder Serde SerdeDoc SerdeCfgFacts.
 Local Open Scope N_scope.
 
 (* Every Decoder accessor, at every state (any input, any position), in any two configurations.
@@ -41,3 +42,56 @@ Print Assumptions C20_accessors.
 Print Assumptions C20_types.
 Print Assumptions C20_skip.
 Print Assumptions C20_std.
+
+(* ------------------------------------------------------------------ the serde bridge (Model/Serde.v) *)
+
+(* Serialisation: any two configurations produce the same chunks, or the one without alloc refuses because the
+   call tree uses collect_str (uses_collect_str: a syntactic test for an SCollectStr node) — ser.rs:256. *)
+Theorem C20_serde_ser : forall c1 c2 v,
+  ser_s c1 v = ser_s c2 v
+  \/ (c_alloc c1 = false /\ c_alloc c2 = true /\ ser_s c1 v = None /\ uses_collect_str v = true)
+  \/ (c_alloc c2 = false /\ c_alloc c1 = true /\ ser_s c2 v = None /\ uses_collect_str v = true).
+Proof. exact ser_s_cfg. Qed.
+
+(* with equal alloc flags the outputs are equal (half and std never matter for serialisation) … *)
+Corollary C20_serde_ser_alloc : forall c1 c2 v, c_alloc c1 = c_alloc c2 -> ser_s c1 v = ser_s c2 v.
+Proof. exact ser_s_alloc_only. Qed.
+
+(* … and a call tree without collect_str is serialised identically everywhere *)
+Corollary C20_serde_ser_plain : forall c1 c2 v, uses_collect_str v = false -> ser_s c1 v = ser_s c2 v.
+Proof. exact ser_s_no_cs. Qed.
+
+(* Deserialisation, for every shape (direct and any-driven alike), any fuel, every state (any input, any
+   position): doc_diff_serde = doc_diff (no alloc: skip may answer Err Message — Option::None, ignored and unknown
+   fields, null under deserialize_any; no half: a half-precision item is TypeMismatch TF16 — f32()/f64() and
+   de.rs:90 under deserialize_any) or the bridge's own documented case: without alloc an indefinite-length
+   byte / text string under deserialize_any is TypeMismatch TBytesIndef / TStringIndef (de.rs:114). *)
+Theorem C20_serde_de : forall c1 c2 sh fuel s,
+  doc_diff_serde c1 c2 (de_s c1 sh fuel s) (de_s c2 sh fuel s).
+Proof. exact de_s_cfg_dds. Qed.
+
+Theorem C20_serde_de_auto : forall c1 c2 sh s, doc_diff_serde c1 c2 (de_auto c1 sh s) (de_auto c2 sh s).
+Proof. exact de_auto_cfg_dds. Qed.
+
+(* the std flag never matters: with equal alloc and half flags both directions are identical *)
+Corollary C20_serde_std : forall c1 c2 sh fuel s v, c_alloc c1 = c_alloc c2 -> c_half c1 = c_half c2 ->
+  de_s c1 sh fuel s = de_s c2 sh fuel s /\ ser_s c1 v = ser_s c2 v.
+Proof. intros c1 c2 sh fuel s v Ha Hh. split; [now apply de_s_std|now apply ser_s_alloc_only]. Qed.
+
+(* the documented differences on concrete inputs: 7f 61 61 ff (an indefinite text string) under ShAny,
+   f9 3c 00 (half-precision 1.0) under ShAny, collect_str *)
+Example C20_serde_documented_difference :
+  fst (run (de_auto (mkcfg true true true) ShAny) [127; 97; 97; 255]) = Ok (SStr [97]) /\
+  fst (run (de_auto (mkcfg false false true) ShAny) [127; 97; 97; 255]) = Err (TypeMismatch TStringIndef) /\
+  fst (run (de_auto (mkcfg true true true) ShAny) [249; 60; 0]) = Ok (SF32 1065353216) /\
+  fst (run (de_auto (mkcfg true true false) ShAny) [249; 60; 0]) = Err (TypeMismatch TF16) /\
+  ser_s (mkcfg true true true) (SSeq None [SCollectStr [97]]) <> None /\
+  ser_s (mkcfg false false true) (SSeq None [SCollectStr [97]]) = None /\
+  uses_collect_str (SSeq None [SCollectStr [97]]) = true.
+Proof. vm_compute. repeat split; discriminate. Qed.
+
+Print Assumptions C20_serde_ser.
+Print Assumptions C20_serde_ser_alloc.
+Print Assumptions C20_serde_de.
+Print Assumptions C20_serde_de_auto.
+Print Assumptions C20_serde_std.
